@@ -43,18 +43,10 @@ theorem toTypeBlocks_spec {t : Level α} {d : Nat} (h : WF d t) :
     refine ⟨hf dl, by simp [List.getElem?_map, List.getElem?_range hdl], ?_⟩
     simp only [hf, hc]; exact hcc
 
-/-- every successful append (any key, guarded or not) keeps the tree well formed -/
+/-- every successful append keeps the tree well formed -/
 theorem append_WF {t : Level α} {d : Nat} {key : List α} {t' : Level α} (hd : 1 ≤ d)
-    (hw : WF d t) (h : t.append d key = .ok t') : WF d t' := by
-  by_cases hne : t.labels = []
-  · unfold append at h
-    by_cases hl : key.length = d
-    · rw [if_neg (by simpa using hl)] at h
-      simp only [hne, List.isEmpty_nil, if_true, Except.ok.injEq] at h
-      subst h
-      exact (chain_spec key d hl hd).1
-    · rw [if_pos (by simpa using hl)] at h; cases h
-  · exact (append_spec hw h hne).2.1
+    (hw : WF d t) (h : t.append d key = .ok t') : WF d t' :=
+  (append_spec hd hw h).2.1
 
 end Level
 
@@ -166,8 +158,7 @@ theorem step_spec {s : HState α} (hc : s.Coherent) (op : HOp α) (ha : s.admiss
     simp only [step]
     refine ⟨⟨hd, hw, hb⟩, by simp, ?_⟩
     simp only [agrees]
-    intro hl
-    exact contains_spec _ _ hw key hl
+    exact containsKey_spec hw key
   | readValues =>
     obtain ⟨s', e1, e2, e3, e4, b, e5, e6⟩ := hrec
     simp only [step, e1]
